@@ -12,6 +12,8 @@ From I18n Require Import Lib.Outcome Model.IntExpr Model.PluralForms Model.Tags 
 From I18n Require Import Lib.Outcome Model.IntExpr Model.PluralForms Model.Ling Model.LingData.
 From I18n Require Import Lib.Outcome Model.IntExpr Model.PluralForms Model.MoParser.
 From I18n Require Import Lib.Outcome Model.IntExpr Model.PluralForms Model.Encodings Model.Iconv.
+From I18n Require Import Lib.Outcome Model.IntExpr Model.PluralForms Model.Tags Generated.UcdPrintable
+  Model.Messages Generated.StringFormats Generated.ControlChars.
 Extraction Language OCaml.
 Extraction "model.ml"
   IntExpr.parse_string IntExpr.pyeval IntExpr.codomain IntExpr.period
@@ -33,4 +35,6 @@ Extraction "model.ml"
   Encodings.real_enc_data Encodings.real_oracle Encodings.charmap_table Encodings.list_eqb
   Encodings.ascii_lower Encodings.ascii_upper
   Iconv.iconv_decode Iconv.iconv_encode
+  Messages.check_messages Messages.check_flags Messages.find_unusual Messages.search_marker Messages.xml_trigger
+  StringFormats.string_formats ControlChars.control_character_names
   .
